@@ -557,7 +557,7 @@ def check_function(ctx: Ctx, rule: str, modname: str, fname: str, spec: dict) ->
                     witness={"condition": cond, "example": {show(q): v for q, v in ex.items()}})
         else:
             ctx.undec(rule, f"{file}:{r.lineno} {fname}", f"cannot decide whether the rejection `{show(r.live)[:90]}` can fire for a valid request: {detail}")
-    if n_dead == len(raises):
+    if n_dead == len(raises) and not spec.get("callee"):
         ctx.ok(rule, site, f"{len(raises)} own rejection(s), none can fire for a valid request ({spec.get('why', '')})")
     # (b) no valid request is answered with nothing: a path that returns None (or falls off the end) from a function that answers
     # with a value -- its annotation is not Optional / None, or its other paths return one -- and a generator that ends before its
@@ -617,3 +617,43 @@ def check_serves_valid(ctx: Ctx, prop: str) -> None:
             if not fname.startswith("_") and not spec.get("helper"):
                 raise
             ctx.ok("G.12", f"{modname}:{fname}", "private helper not present (its code is read where it was written out)")
+    # the functions the entry points call (module-level functions of the package, to depth 3): one that had no rejection and no None
+    # answer of its own on the reference tree (sa/pinned_exits.json) has no documented one -- whatever it acquires must be dead for
+    # valid requests too.  Callees with rejections of their own and no specification here are not covered.
+    import json as _json
+    import os as _os
+    try:
+        pinned = _json.load(open(_os.path.join(_os.path.dirname(_os.path.dirname(_os.path.abspath(__file__))), "sa", "pinned_exits.json")))
+    except Exception:  # noqa: BLE001
+        pinned = {}
+    listed = {f"{m_}:{f_}" for es in SERVES.values() for m_, f_, _ in es}
+    seen, frontier, n_callees = set(), [(m_, f_, 0) for m_, f_, _ in entries], 0
+    while frontier:
+        m_, f_, d_ = frontier.pop()
+        try:
+            s_ = ctx.summ.of_func(m_, f_)
+        except Exception:  # noqa: BLE001
+            continue
+        for tm_ in [e.term for e in s_.calls] + [L_.iter for L_ in s_.loops.values()]:
+            for x in walk(tm_):
+                if x[0] == "call" and x[1][0] == "global" and x[1][2] == "func" and ":" in x[1][1] and "." not in x[1][1].split(":")[1]:
+                    q = x[1][1].replace("@reference", "")
+                    if q in seen:
+                        continue
+                    seen.add(q)
+                    cm, cf = q.split(":")
+                    if d_ < 3:
+                        frontier.append((cm, cf, d_ + 1))
+                    pe = pinned.get(q)
+                    if q in listed or pe is None or pe["raises"] or pe["none_returns"] or (pe["falls_off"] and not pe.get("generator")):
+                        continue
+                    try:
+                        check_function(ctx, "G.12", cm, cf, {"why": f"it serves {fname_of(entries)} and had no rejection of its own", "callee": True})
+                        n_callees += 1
+                    except AnchorMissing:
+                        pass
+    ctx.extra["g12_callees"] = n_callees
+
+
+def fname_of(entries):
+    return " / ".join(sorted({f_ for _, f_, _ in entries})[:3]) + (" ..." if len(entries) > 3 else "")
